@@ -45,6 +45,19 @@ func TestVerifMicroHandlerWrapper(t *testing.T) {
 			}
 			err := NewHandlerWrapper(opts...)(func(context.Context, server.Request, interface{}) error { return handler() })(context.Background(), fakeServerReq{}, nil)
 			return vOut{Err: err}
+		},
+		Instance: func(ext, fb bool) func(func() error) vOut {
+			var opts []Option
+			if ext {
+				opts = append(opts, WithServerResourceExtractor(func(context.Context, server.Request) string { return "custom-micro-h" }))
+			}
+			if fb {
+				opts = append(opts, WithServerBlockFallback(func(context.Context, server.Request, *base.BlockError) error { return errFallback }))
+			}
+			w := NewHandlerWrapper(opts...)
+			return func(h func() error) vOut {
+				return vOut{Err: w(func(context.Context, server.Request, interface{}) error { return h() })(context.Background(), fakeServerReq{}, nil)}
+			}
 		}, Rejected: rejected})
 }
 
@@ -121,17 +134,48 @@ func clientRun(stream, outlierPath bool) func(r vReq, handler func() error) vOut
 	}
 }
 
+func clientInstance(stream, outlierPath bool) func(ext, fb bool) func(func() error) vOut {
+	return func(ext, fb bool) func(func() error) vOut {
+		var opts []Option
+		if ext {
+			opts = append(opts, WithClientResourceExtractor(func(context.Context, client.Request) string { return "custom-micro-c" }),
+				WithStreamClientResourceExtractor(func(context.Context, client.Request) string { return "custom-micro-c" }))
+		}
+		if fb {
+			opts = append(opts, WithClientBlockFallback(func(context.Context, client.Request, *base.BlockError) error { return errFallback }),
+				WithStreamClientBlockFallback(func(context.Context, client.Request, *base.BlockError) (client.Stream, error) { return nil, errFallback }))
+		}
+		if outlierPath {
+			opts = append(opts, WithEnableOutlier(func(context.Context) bool { return true }))
+		}
+		hs := &vHandlers{}
+		c := NewClientWrapper(opts...)(fakeClient{handler: hs.call}) // ONE wrapped client for all requests of the combination
+		return func(h func() error) (out vOut) {
+			hs.with(h, func() {
+				req := client.NewClient().NewRequest("verif.svc", "Verif.Call", nil)
+				if stream {
+					_, err := c.Stream(context.Background(), req)
+					out = vOut{Err: err}
+					return
+				}
+				out = vOut{Err: c.Call(context.Background(), req, nil)}
+			})
+			return out
+		}
+	}
+}
+
 func TestVerifMicroClientCall(t *testing.T) {
 	vRunDriver(t, vDriver{Name: "micro.clientWrapper.Call", DefaultRes: "Verif.Call", CustomRes: "custom-micro-c", HasFallback: true, TracesError: true, CanPanic: true,
-		Run: clientRun(false, false), Rejected: rejected})
+		Run: clientRun(false, false), Instance: clientInstance(false, false), Rejected: rejected})
 }
 
 func TestVerifMicroClientStream(t *testing.T) {
 	vRunDriver(t, vDriver{Name: "micro.clientWrapper.Stream", DefaultRes: "Verif.Call", CustomRes: "custom-micro-c", HasFallback: true, TracesError: true, CanPanic: true,
-		Run: clientRun(true, false), Rejected: rejected})
+		Run: clientRun(true, false), Instance: clientInstance(true, false), Rejected: rejected})
 }
 
 func TestVerifMicroClientCallOutlier(t *testing.T) {
 	vRunDriver(t, vDriver{Name: "micro.clientWrapper.Call(outlier)", DefaultRes: "verif.svc", HasFallback: true, CanPanic: true,
-		Run: clientRun(false, true), Rejected: rejected})
+		Run: clientRun(false, true), Instance: clientInstance(false, true), Rejected: rejected})
 }
